@@ -272,7 +272,51 @@ def correspondence(ctx):
     ctx.sample({"request": lines[0][:120], "answer": ans[0][:80]})
 
 
+def antiparallel_single(ctx, n):
+    """single reflection whose measured direction is (nearly) OPPOSITE to B.hkl: U is then a rotation by (nearly) 180 deg about a well defined
+    axis; also the mirror case, measured direction a hair off B.hkl itself (rotation by a tiny angle)"""
+    from diffcalc.ub.calc import UBCalculation
+    from diffcalc.hkl.geometry import Position
+    kinds = set()
+    for _ in range(n):
+        lat = ctx.rng.choice(LATTICES)
+        with quiet():
+            ub = UBCalculation("c07a")
+            ub.set_lattice("x", *lat)
+        B = np.asarray(ub.crystal.B, float)
+        pos = rand_pos(ctx.rng, ctx.rng.choice(["six", "four"]))
+        p = unit(Zmat(pos).T @ qlab(pos))
+        sgn = ctx.rng.choice([-1.0, -1.0, 1.0])
+        sv = 10.0 ** ctx.rng.uniform(-7.3, -2.0)
+        v = np.cross(p, [ctx.rng.uniform(-1, 1) for _ in range(3)])
+        if np.linalg.norm(v) < 1e-3:
+            continue
+        c = unit(sgn * p + sv * unit(v))
+        h = np.linalg.solve(B, c) * ctx.rng.uniform(0.5, 4)
+        with quiet():
+            ub.add_reflection(tuple(float(x) for x in h), Position(*pos), 12.0, "r")
+        r = call(ub, None, None)
+        c = unit(B @ h)
+        s = np.linalg.norm(np.cross(c, p))
+        kinds.add(("anti" if sgn < 0 else "para", int(math.log10(sv)), r[0]))
+        bad = None
+        if r[0] != "ok":
+            bad = f"raised {r[0]}: {r[1][:80]}"
+        elif not np.all(np.isfinite(r[1])):
+            bad = "U is not finite"
+        elif not is_rot(r[1], 1e-8):
+            bad = "U is not a proper rotation"
+        elif np.max(np.abs(r[1] @ c - p)) > 1e-8 + 1e-15 / s:
+            bad = f"U does not reproduce the reflection: U.B.h points {math.degrees(math.acos(max(-1, min(1, float((r[1] @ c) @ p))))):.6f} deg away from the measured direction"
+        if bad:
+            ctx.violation(f"single reflection whose measured direction is {math.degrees(math.asin(min(1.0, s))):.3g} deg from {'the opposite of ' if sgn < 0 else ''}B.hkl "
+                          f"(hkl={tuple(round(float(x), 6) for x in h)}, position {tuple(round(x, 4) for x in pos)}, lattice {lat}): {bad}",
+                          {"hkl": [float(x) for x in h], "pos": list(pos), "lattice": list(lat)}, {"kind": "single-near-parallel", "what": bad.split(":")[0][:30]})
+    ctx.stream("oracle:single-reflection-near-(anti)parallel", n, len(kinds))
+
+
 def oracle(ctx, widen=1):
+    antiparallel_single(ctx, ctx.scale(150, 6000) * widen)
     n = ctx.scale(400, 20000) * widen
     kinds = set()
     for i in range(n):
